@@ -1,6 +1,6 @@
 """Which rules exist, which properties are claimed, their floors and evidence texts."""
 
-RULE_MODULES = ['descent']
+RULE_MODULES = ['descent', 'null']
 
 # rules whose instance set legitimately differs between debug and release-like MIR
 CONFIG_DEPENDENT_RULES = {'PANICSITE'}
@@ -22,12 +22,12 @@ PROPS = {
     'C04': dict(
         explanation='Static analysis (MIR/SSA). Decided clause: lookup, the lookup inside delete, and the insert descent of MapTree have the EXACT / EXACT / INSERT decision tables [DESCENT].',
         assumptions=COMMON_ASSUMPTIONS + ['C02', 'C11'],
-        floors={'DESCENT': 3},
+        floors={'DESCENT': 3, 'NULL': 40},
     ),
     'C05': dict(
         explanation='Static analysis (MIR/SSA). Decided clause: lookup, the lookup inside delete, and the insert descent of SetTree (comparing through KeyValue::key of the stored value) have the EXACT / EXACT / INSERT decision tables [DESCENT].',
         assumptions=COMMON_ASSUMPTIONS + ['C02', 'C11'],
-        floors={'DESCENT': 3},
+        floors={'DESCENT': 3, 'NULL': 40},
     ),
     'C06': dict(
         explanation='Static analysis (MIR/SSA). Decided clause (complete for the loop, given the search-tree invariant): the exact-lookup descent of KeyExpTree continues right when stored<probe, left when stored>probe, returns the current value on equality, starts at the root and returns None at an empty link [DESCENT].',
@@ -38,5 +38,15 @@ PROPS = {
         explanation='Static analysis (MIR/SSA). Decided clause: first_index_less and first_index_less_by of MapTree and SetTree have the PRED_LE table (record+right on stored<probe, return current on equality, left on stored>probe, EMPTY_REF initially) and therefore agree with each other [DESCENT].',
         assumptions=COMMON_ASSUMPTIONS + ['C02'],
         floors={'DESCENT': 6},
+    ),
+    'C09': dict(
+        explanation='Static analysis (MIR/SSA nullness dataflow). Decided clause: in SetTree::index_after / index_before (and everything they call) every link that is dereferenced is proven != EMPTY_REF on every path, in particular the parent link followed by the climb, so the step at the largest / smallest value cannot read slot u32::MAX and returns the (empty) parent link [NULL].',
+        assumptions=COMMON_ASSUMPTIONS + ['C02 (the tree is valid, so the links followed designate the in-order neighbours)'],
+        floors={'NULL': 4},
+    ),
+    'C10': dict(
+        explanation='Static analysis (MIR/SSA nullness dataflow, interprocedural by call-site meet). Decided clause: every call of an arena accessor (node/node_mut = get_unchecked) in the three tree modules and the export file receives an index proven != EMPTY_REF by a dominating test, by provenance (allocator result, constant) or by one of 12 reasoned shape-invariant exceptions (DESIGN section 4, NULL) [NULL]. Not decided: termination of the repair recursion, arithmetic in the seg layout (C14).',
+        assumptions=COMMON_ASSUMPTIONS + ['C02 for the reasoned exceptions (inner child of a rotated node, sibling of a double-black node, non-root has a parent)'],
+        floors={'NULL': 190},
     ),
 }
